@@ -322,6 +322,12 @@ func fuzzTextEntry(b *recB, f *feeder, e tEntry, rng *rand.Rand, lv textLevel) {
 			continue
 		}
 		textAttacks(v, rng, lv, lv.directExp, func(a tatk) { f.add(a.class, a.sub, a.data) })
+		if lv.bigDigits < 1000000 && !lv.light {
+			// one number of a million digits per entry point at every tier (the other long numbers scale with the tier)
+			if rs := runs(v, isDigitish, 1); len(rs) > 0 {
+				f.add("digits", "long-integer-10^6", splice(v, rs[0][0], rs[0][1], strings.Repeat("9", 1000000)))
+			}
+		}
 	}
 	// cross-seeding: the own valid outputs of the OTHER text formats of the repository
 	// (e.g. a currency with a unit for Currency.UnmarshalText, whose own output is a bare integer)
